@@ -522,6 +522,11 @@ pub fn matrix_row(r: &MatrixRow, env: Option<&Environment>, p: &Interpreter) -> 
   let out = new_fxn.out();
   let mut plan_brrw = plan.borrow_mut();
   plan_brrw.push(new_fxn);
+  // Concatenating a single element hands back that element's own storage:
+  // `[a]` is a new matrix with a's elements, not another name for a.
+  if row.len() == 1 {
+    return Ok(out.deep_clone());
+  }
   Ok(out)
 }
 
